@@ -62,10 +62,17 @@ def gen(ctx, q):
             exp = {}
             if late:
                 order = [k for k in order if k in ("str", "chmap")]
-            for kind in order:
+            directed = rep < 3          # a short SOFTWARE string among long ones: a reader that terminates a text late picks up what other chunks left behind
+            if directed:
+                order = ["str", "str", "str", "str"]
+                late = False
+            for oi, kind in enumerate(order):
                 if kind == "str":
                     name = rng.choice(sorted(STR))
                     ln = rng.choice([1, 2, 7, 31, 32, 33, 100, 127, 128, 255, 256, 500])
+                    if directed:
+                        name = ["ARTIST", "SOFTWARE", "TITLE", "COMMENT"][oi]
+                        ln = [100, 1 + rep, 64, 200][oi]
                     if name == "SOFTWARE":
                         ln = min(ln, 100)        # the library builds "<s> (libsndfile-x.y.z)" in a 128 byte scratch buffer
                     s = text(rng, ln)
